@@ -185,6 +185,137 @@ def gen_state(rng, names: list[str]) -> dict[str, int]:
 
 
 # ---------------------------------------------------------------------------------------
+# histories of build_model calls on ONE LabelMapper (own random stream "c05-session"; the main stream is untouched)
+# ---------------------------------------------------------------------------------------
+
+
+def gen_init(rng, base: dict, lv: dict) -> dict | None:
+    """`initial_labels` of one call (same shapes as in gen_case)."""
+    if rng.random() < 0.25:
+        return None
+    init: dict[str, Any] = {}
+    for c, n in lv.items():
+        if rng.random() < 0.4:
+            continue
+        r = rng.random()
+        if n == 0:
+            if r < 0.5:
+                init[c] = [] if r < 0.25 else 0
+            continue
+        if r < 0.45:
+            init[c] = rng.randrange(n)
+        elif r < 0.85:
+            init[c] = sorted(rng.sample(range(n), rng.randint(0, n)))
+        elif r < 0.93:
+            init[c] = n + rng.randint(0, 1)
+        else:
+            init[c] = [rng.randrange(n), -1]
+    return init
+
+
+# the way a labelling experiment uses a mapper: the unlabelled reference model first, then the tracer placed on the substrates
+# (network of seeded/C05-9/demo.py: in -> A(1); A + B(2) -> C(3); C -> A + B; B -> out; an unmapped decay of the unlabelled E
+# reading the labelled pool A; a derived A + B)
+SESSION_CORPUS = [
+    {"base": {"params": {"p20": 1, "p21": 2, "p22": 1, "p23": 3}, "dpars": [], "vars": {"c1": 4, "c2": 2, "c3": 1, "c4": 2},
+              "dvars": [("d61", "FSum", ["c1", "c2"])],
+              "rxns": [("v40", "FProd", ["p20"], {"c1": 1}), ("v41", "FProd", ["c1", "c2", "p21"], {"c1": -1, "c2": -1, "c3": 1}),
+                       ("v42", "FProd", ["c3", "p22"], {"c3": -1, "c1": 1, "c2": 1}), ("v43", "FProd", ["c2", "p23"], {"c2": -1}),
+                       ("v44", "FProd", ["c4", "c1", "p23"], {"c4": -1})]},
+     "lv": {"c1": 1, "c2": 2, "c3": 3}, "maps": {"v40": [0], "v41": [0, 1, 2], "v42": [2, 0, 1], "v43": [0, 1]},
+     "inits": [None, {"c2": [0, 1], "c1": 0}], "poke": False, "map_kinds": ["corpus-session"]},
+    # three tracer experiments from one mapper, results edited by the caller in between
+    {"base": {"params": {"p20": 2}, "dpars": [], "vars": {"c1": 3, "c2": 4}, "dvars": [],
+              "rxns": [("v40", "FProd", ["p20"], {"c1": 1}), ("v41", "FProd", ["c1", "p20"], {"c1": -1, "c2": 1}), ("v42", "FProd", ["c2", "p20"], {"c2": -1})]},
+     "lv": {"c1": 1, "c2": 1}, "maps": {"v40": [0], "v41": [0], "v42": [0]},
+     "inits": [None, {"c1": 0}, {"c2": [0]}], "poke": True, "map_kinds": ["corpus-session"]},
+    # the same tracer specification (one dict object) handed to two calls
+    {"base": {"params": {"p20": 2}, "dpars": [], "vars": {"c1": 3, "c2": 4}, "dvars": [],
+              "rxns": [("v40", "FProd", ["p20"], {"c1": 1}), ("v41", "FProd", ["c1", "p20"], {"c1": -1, "c2": 1}), ("v42", "FProd", ["c2", "p20"], {"c2": -1})]},
+     "lv": {"c1": 2, "c2": 2}, "maps": {"v40": [1, 0], "v41": [1, 0], "v42": [0, 1]},
+     "inits": [{"c1": [0, 1], "c2": 1}, {"c1": [0, 1], "c2": 1}], "reuse": [False, True], "poke": False, "map_kinds": ["corpus-session"]},
+    # the first call is refused (map of v41 too short): the refusal must be repeated, not forgotten
+    {"base": {"params": {"p20": 1}, "dpars": [], "vars": {"c1": 1, "c2": 1}, "dvars": [],
+              "rxns": [("v40", "FProd", ["p20"], {"c1": 1}), ("v41", "FProd", ["c1", "p20"], {"c1": -1, "c2": 1})]},
+     "lv": {"c1": 2, "c2": 2}, "maps": {"v40": [0, 1], "v41": [0]},
+     "inits": [None, None], "poke": False, "map_kinds": ["corpus-session"]},
+]
+
+
+def gen_session(rng) -> dict:
+    case = gen_rev_case(rng) if rng.random() < 0.15 else gen_case(rng)
+    inits: list = []
+    reuse: list[bool] = []
+    for j in range(rng.choice([2, 2, 2, 3, 4])):
+        if j > 0 and inits[-1] and rng.random() < 0.25:
+            inits.append(inits[-1])  # the caller hands over the same dict object again
+            reuse.append(True)
+            continue
+        inits.append(None if (j == 0 and rng.random() < 0.5) else gen_init(rng, case["base"], case["lv"]))
+        reuse.append(False)
+    return {"base": case["base"], "lv": case["lv"], "maps": case["maps"], "inits": inits, "reuse": reuse, "poke": rng.random() < 0.3,
+            "map_kinds": ["session"]}
+
+
+def judge_build(sess: dict, k: int, out, model, states: list[dict[str, int]], known_ids) -> list[tuple[str, str | None]]:
+    """The property on what the k-th call on the mapper returned: the mapper's fields with that call's initial labels."""
+    case = {"base": sess["base"], "lv": sess["lv"], "maps": sess["maps"], "init": sess["inits"][k]}
+    info = classify(case)
+    bad = oracle_structure(case, out, info)
+    if out[0] == "ok" and model is not None:
+        bad += oracle_dynamics(case, model, info, states, known_ids)
+    return [(f"call #{k + 1} of {len(sess['inits'])} on one LabelMapper (initial_labels={sess['inits'][k]}): {what}", fid) for what, fid in bad]
+
+
+def run_session(sess: dict, rng, nstates: int, known_ids, stored_states: dict | None = None):
+    """-> (outcomes, maps afterwards, label counts afterwards, [(what, finding id)], states per call, calls judged on dynamics)"""
+    bad: list[tuple[str, str | None]] = []
+    states_used: dict[str, list] = {}
+    judged = [0]
+
+    def judge(k, out, model):
+        states: list[dict[str, int]] = []
+        if out[0] == "ok" and model is not None:
+            if stored_states is not None:
+                states = [dict(x) for x in stored_states.get(str(k), [])]
+            else:
+                names = [n for n, _ in out[1]["vars"]]
+                states = [gen_state(rng, names) for _ in range(nstates)]
+            info = classify({"base": sess["base"], "lv": sess["lv"], "maps": sess["maps"], "init": sess["inits"][k]})
+            if not (info["short"] or info["outside"] or info["nonmass"] or info["unmapped_touch"]):
+                judged[0] += 1
+        states_used[str(k)] = states
+        bad.extend(judge_build(sess, k, out, model, states, known_ids))
+
+    outs, after, lv_after = L.run_iso_session(sess["base"], sess["lv"], sess["maps"], sess["inits"], poke=sess.get("poke", False), judge=judge,
+                                                 reuse=sess.get("reuse"))
+    return outs, after, lv_after, bad, states_used, judged[0]
+
+
+def coq_session(sess: dict, outs, after) -> str | None:
+    built = [L.coq_result(o, "iso", "Z") for o in outs]
+    if after is None or any(b is None for b in built):
+        return None
+    return (
+        f"mkSessCase {L.coq_lv(sess['lv'])} {L.coq_maps(sess['maps'])} {common.clist(L.coq_init(i or {}) for i in sess['inits'])}\n    "
+        f"{L.coq_base(sess['base'])}\n    {common.clist(built)}\n    {L.coq_maps(after)}"
+    )
+
+
+def sess_file(cases: list[str]) -> str:
+    defs = "\n".join(f"Definition case_{i} : sess_case :=\n  {c}." for i, c in enumerate(cases))
+    return (
+        "From Coq Require Import List ZArith NArith QArith.\nFrom MxlBase Require Import ListX.\n"
+        "From Label Require Import LModel Iso IsoSession Linear GenLabelFacts Exec.\nImport ListNotations.\n"
+        + defs
+        + "\nDefinition cases : list sess_case := "
+        + common.clist(f"case_{i}" for i in range(len(cases)))
+        + ".\nDefinition mismatches := filter_idx (fun c => negb (check_sess gen_build_maps (ext_bit_of gen_label_facts) (f_repl gen_label_facts) (f_init_name gen_label_facts) c)) cases.\n"
+        "Eval vm_compute in mismatches.\n"
+    )
+
+
+# ---------------------------------------------------------------------------------------
 # independent oracle: the property, judged on what the implementation built
 # ---------------------------------------------------------------------------------------
 
@@ -359,7 +490,12 @@ def oracle_dynamics(case: dict, model, info: dict, states: list[dict[str, int]],
     bm = L.build_base(base)
     bad = []
     fid = finding_for(info, known_ids)
+    expected = [k for c in base["vars"] for k in L.iso_names(c, lv.get(c, 0))]
+    if sorted(model.get_variable_names()) != sorted(expected):
+        return []  # the variables are not the isotopomers: reported by oracle_structure, nothing to sum here
     for st in states:
+        if any(k not in st for k in expected):
+            continue
         totals = {}
         for c in base["vars"]:
             totals[c] = sum(st[k] for k in L.iso_names(c, lv.get(c, 0)))
@@ -438,7 +574,11 @@ def check(run: Run) -> None:
         "many positions on both sides and stoichiometries declared in shuffled order) x label counts 0-3 x maps (permutations, identity, "
         "duplicating, short, too short for the products, long, out-of-range, negative) x initial labels (int/list/invalid), plus EVERY "
         "map of the right length for small one-reaction shapes; right-hand sides at 2-3 integer states per built model. A case is "
-        "non-trivial if at least one reaction is mapped; distinct by content"
+        "non-trivial if at least one reaction is mapped; distinct by content. "
+        "Then HISTORIES on one LabelMapper object (own random stream c05-session; corpus first: reference build then tracer builds, a refused first "
+        "call): 2-4 build_model calls per mapper with independent initial_labels, in 30 % of them the caller edits the containers of every returned "
+        "model before the next call, a quarter of the later calls is handed the very dict object of the previous call; EVERY call is judged by the same oracle as a single call (structure, totals, dynamics) and the whole history plus "
+        "the mapper's label_maps afterwards is compared with the Coq model of the object (IsoSession.v)"
     )
     proofs_ok = run.check_proofs(AREA, PROPS)
     run.assumptions += [
@@ -516,9 +656,73 @@ def check(run: Run) -> None:
     run.coverage["input_distribution"] = dist
     run.coverage["known_finding_hits_in_generated_cases"] = hits
 
+    # ---- histories of calls on ONE LabelMapper object: every call is judged like a first call ----
+    srng = common.rng_for(run.seed, "c05-session")
+    sessions = [dict(x) for x in SESSION_CORPUS] + [gen_session(srng) for _ in range(1500 if thorough else 220)]
+    sdist = {"sessions": 0, "calls": 0, "later_calls": 0, "later_calls_built": 0, "later_calls_judged_on_dynamics": 0, "first_call_refused": 0,
+             "results_edited_between_calls": 0, "calls_handed_the_previous_dict_object": 0, "mapper_fields_changed": 0, "calls_per_session": {}}
+    sess_cases: list[str] = []
+    sess_index: list[int] = []
+    for sidx, sess in enumerate(sessions):
+        outs, after, lv_after, bad, sstates, _nj = run_session(sess, srng, 2, set(known))
+        n = len(outs)
+        sdist["sessions"] += 1
+        sdist["calls"] += n
+        sdist["later_calls"] += n - 1
+        sdist["later_calls_built"] += sum(1 for o in outs[1:] if o[0] == "ok")
+        sdist["first_call_refused"] += int(outs[0][0] != "ok")
+        sdist["results_edited_between_calls"] += int(bool(sess.get("poke")))
+        sdist["calls_handed_the_previous_dict_object"] += sum(1 for x in (sess.get("reuse") or []) if x)
+        sdist["calls_per_session"][n] = sdist["calls_per_session"].get(n, 0) + 1
+        for k in range(1, n):
+            ck = {"base": sess["base"], "lv": sess["lv"], "maps": sess["maps"], "init": sess["inits"][k]}
+            ik = classify(ck)
+            if outs[k][0] == "ok" and not (ik["short"] or ik["outside"] or ik["nonmass"] or ik["unmapped_touch"]):
+                sdist["later_calls_judged_on_dynamics"] += 1
+        for mk in sess["map_kinds"]:
+            dist["map_kinds"][mk] = dist["map_kinds"].get(mk, 0) + 1
+        run.count_case(("session", sess["base"], sess["lv"], sess["maps"], sess["inits"], sess.get("poke", False), sess.get("reuse")), nontrivial=bool(sess["maps"]) and n >= 2)
+        for what, fid in bad:
+            if fid is not None and fid in known:
+                hits[fid] = hits.get(fid, 0) + 1
+                continue
+            if n_viol < 5:
+                n_viol += 1
+                run.violation(f"LabelMapper.build_model: {what}", {"kind": "session", "session": _plain_session(sess), "states": sstates})
+        if sidx == 0:
+            run.sample({"lv": sess["lv"], "maps": sess["maps"], "inits": sess["inits"], "rxns": sess["base"]["rxns"],
+                        "outcomes": [o[0] if o[0] == "ok" else o[1] for o in outs]})
+        if lv_after != sess["lv"] or after != {k: list(v) for k, v in sess["maps"].items()}:
+            sdist["mapper_fields_changed"] += 1
+        if lv_after != sess["lv"]:
+            run.broken_correspondence.append(f"build_model changed the mapper's label_variables to {lv_after} (the model never writes them): session #{sidx} {_plain_session(sess)}")
+            continue
+        sc = coq_session(sess, outs, after)
+        if sc is None:
+            run.broken_correspondence.append(f"outcomes {[o if o[0] != 'ok' else 'ok' for o in outs]} / label_maps afterwards {after} of session #{sidx} have no counterpart in the model: {_plain_session(sess)}")
+        else:
+            sess_cases.append(sc)
+            sess_index.append(sidx)
+    run.coverage["input_distribution"]["histories_on_one_mapper"] = sdist
+
     per = 150
+    sper = 60
     files = {f"c05_{k:04d}": corr_file(chunk) for k, chunk in enumerate(common.chunks(coq_cases, per))}
-    res = common.coq_eval_many(AREA, files, timeout_s=900)
+    sfiles = {f"c05_s{k:04d}": sess_file(chunk) for k, chunk in enumerate(common.chunks(sess_cases, sper))}
+    res = common.coq_eval_many(AREA, files | sfiles, timeout_s=900)
+    smism = 0
+    for k, name in enumerate(sorted(sfiles)):
+        ok, outp = res[name]
+        lists = common.parse_eval_list(outp) if ok else None
+        if not ok or not lists:
+            run.broken_correspondence.append(f"correspondence shard {name} did not evaluate: {outp[-300:]}")
+            continue
+        for j in lists[-1]:
+            smism += 1
+            si = sess_index[k * sper + j]
+            if len(run.broken_correspondence) < 5:
+                run.broken_correspondence.append(f"model/implementation disagree on the history of calls #{si}: {_plain_session(sessions[si])}")
+    run.coverage["histories_validated_against_impl"] = len(sess_cases) - smism
     mism = 0
     for k, name in enumerate(sorted(files)):
         ok, outp = res[name]
@@ -532,7 +736,7 @@ def check(run: Run) -> None:
             if len(run.broken_correspondence) < 5:
                 run.broken_correspondence.append(f"model/implementation disagree on case #{ci}: {_plain(cases[ci])}")
     run.coverage["traces_validated_against_impl"] = len(coq_cases) - mism
-    run.coverage["correspondence_mismatches"] = mism
+    run.coverage["correspondence_mismatches"] = mism + smism
 
     # known findings: replay every witness
     for fid, f in known.items():
@@ -552,8 +756,26 @@ def _plain(case: dict) -> dict:
     return {k: case[k] for k in ("base", "lv", "maps", "init")}
 
 
+def _plain_session(sess: dict) -> dict:
+    return {k: sess[k] for k in ("base", "lv", "maps", "inits")} | {"poke": bool(sess.get("poke", False)), "reuse": list(sess.get("reuse") or [])}
+
+
+def replay_session(r: dict) -> int:
+    known = {f["id"] for f in common.load_known_findings(PROP)}
+    sess = r["session"]
+    outs, after, lv_after, bad, _st, _nj = run_session(sess, common.rng_for(1, "c05-replay"), 2, known, stored_states=r.get("states"))
+    for what, fid in bad:
+        print(("known finding " + fid + ": " if fid in known else "FAILS: ") + what)
+    print("mapper.label_maps after the calls:", after, "(given:", sess["maps"], ")")
+    if not bad:
+        print("property holds on this history of calls")
+    return 1 if [b for b in bad if b[1] not in known] else 0
+
+
 def replay(rep: dict) -> int:
     r = rep["replay"]
+    if r.get("kind") == "session":
+        return replay_session(r)
     if r.get("kind") != "iso":
         print("nothing to replay:", rep.get("what"))
         return 1
